@@ -381,8 +381,6 @@ func c16NCSession(kind string, v11 bool, longLine bool, n int, seed uint64) c16S
 	if s.open == "nil" {
 		s.extra = fmt.Sprintf("version=%s session-id=%d", d.SelectedVersion, d.SessionID())
 		for i := 0; i < 5; i++ {
-			var rr interface {
-			}
 			var err error
 			var result string
 			var failed bool
@@ -411,7 +409,6 @@ func c16NCSession(kind string, v11 bool, longLine bool, n int, seed uint64) c16S
 					result, failed = r.Result, r.Failed != nil
 				}
 			}
-			_ = rr
 			if c16Timing {
 				fmt.Printf("  %s rpc %d done at %v\n", kind, i, time.Since(tOpen))
 			}
@@ -672,5 +669,5 @@ func c16Sessions(c *ctx) {
 	}
 }
 
-// c16Timed is a debugging aid for replays: phase durations of one NETCONF session.
+// c16Timing (set on session replays) prints phase durations of a NETCONF session.
 var c16Timing = false
